@@ -109,6 +109,13 @@ class Ins(object):
                 out.append(o[1])
         return out
 
+    def writes_mem_operand(self):
+        """The explicit memory operand is written (as opposed to implicit stack pushes)."""
+        return "S" in self.fl and self.mem >= 0 and not self.op.startswith(("PUSH", "CALL", "PREFETCH", "CLFLUSH", "CLWB", "CLDEMOTE"))
+
+    def reads_mem_operand(self):
+        return "L" in self.fl and self.mem >= 0 and not self.op.startswith(("POP", "RET", "PREFETCH", "CLFLUSH", "LEA"))
+
     def is_ret(self):
         return "R" in self.fl and self.op.startswith("RET")
 
@@ -289,6 +296,33 @@ class Obj(object):
                         break
             return (ssec, addr, nm)
         return (-1, a, sym)
+
+    def resolve_symaddr(self, name, c, lib=None):
+        """Resolve an abstract ('addr', name, c) to (obj, secidx, offset, symbol-name-at-that-address, section dict)
+        or None for externals.  `name` may be a section name (nasm's section-relative relocations)."""
+        for k, sx in self.sections.items():
+            if sx["name"] == name and "A" in sx["flags"]:
+                return (self, k, c, self._name_at(k, c), sx)
+        for sm in self.symbols:
+            if sm.name == name and sm.kind == "DEF":
+                return (self, sm.sec, sm.addr + c, self._name_at(sm.sec, sm.addr + c) or name, self.sections.get(sm.sec))
+            if sm.name == name and sm.kind == "COM":
+                return (self, -2, c, name, {"name": "COMMON", "flags": "AW", "align": 0, "size": 0})
+        if lib is not None and name in lib.globals:
+            go, gs = lib.globals[name]
+            return (go, gs.sec, gs.addr + c, name, go.sections.get(gs.sec))
+        return None
+
+    def _name_at(self, sec, addr):
+        """Named data symbol covering (sec, addr): exact match first, else the nearest preceding symbol."""
+        best = None
+        for sm in self.symbols:
+            if sm.kind == "DEF" and sm.sec == sec and sm.type != "O" and sm.addr <= addr:
+                if best is None or sm.addr > best.addr or (sm.addr == best.addr and sm.bind == "G"):
+                    best = sm
+        if best is None:
+            return None
+        return best.name if best.addr == addr else "%s+%#x" % (best.name, addr - best.addr)
 
     def line_of(self, sec, addr):
         self.ins
